@@ -4,6 +4,9 @@ import Nstd.Sync.LemmasSignal
 import Nstd.Sync.LemmasMonitor
 import Nstd.Sync.LemmasRun
 import Nstd.Sync.LemmasScenario
+import Nstd.Sync.LiveSem
+import Nstd.Sync.LiveSignal
+import Nstd.Sync.LiveMonitor
 /-
   Property C11 — Mutex, Semaphore, Signal, Monitor and Thread keep their contracts under every interleaving.
 
@@ -364,6 +367,43 @@ theorem join_returns_result (s : Thr.St) (t j : Tid) (hpc : s.pc t = .join j) :
 
 example : ∃ s : Thr.St, s.pc 0 = .join 1 ∧ s.status 1 = .finished 7 :=
   ⟨{ Thr.init with pc := upd Thr.init.pc 0 (.join 1), status := upd Thr.init.status 1 (.finished 7) }, rfl, rfl⟩
+
+/-! ## liveness under fairness (infinite runs, Fair.lean)
+
+  `Run` = an infinite sequence of states with the `(thread, action)` taken at every index.  `WeakFair r prog`: a thread
+  whose progress step (`.run 0` inside a call, never the blocked state of a condition wait, so spurious wake-ups are
+  never required) is enabled continuously eventually takes it.  `StrongFair r lk`: a thread whose mutex acquisition is
+  enabled infinitely often eventually performs it (starvation-free mutex).  Weak fairness alone cannot give the
+  Signal / Monitor statements: other threads may take the mutex every time it is free. -/
+
+/-- No waiter stays blocked while the count is positive (liveness): on every weakly fair run, a thread inside
+    wait / tryWait / wait(timeout) at a moment from which the count stays positive returns, and it returns true unless
+    an untimed wait() is interrupted by EINTR. -/
+theorem sem_waiter_eventually_returns (r : Run Sem.St Sem.Op Sem.step) (hwf : WeakFair r Sem.prog) (n : Nat)
+    (hpos : ∀ m, n ≤ m → 0 < (r.st m).count) (u : Tid) (hw : Sem.waiting ((r.st n).pc u) = true) :
+    ∃ m, n ≤ m ∧ (r.st m).pc u = .idle ∧
+      ((r.st m).ret u = some (.bool true) ∨ ((r.st n).pc u = .wait ∧ (r.st m).ret u = some (.bool false))) :=
+  Sem.waiter_eventually_returns r hwf n hpos u hw
+
+/-- No waiter stays blocked while the signal remains set (liveness): on every run from a reachable state that is weakly
+    fair for all threads and whose internal mutex is starvation-free, a thread blocked in wait() / wait(timeout) at a
+    moment from which the flag stays set eventually returns — true, unless it is a timed wait whose time-out fired. -/
+theorem signal_waiter_eventually_returns {set0 : Bool} {now spur : Nat} (r : Run Signal.St Signal.Op Signal.step)
+    (h0 : Signal.Reach set0 now spur (r.st 0)) (hwf : WeakFair r Signal.prog) (hsf : StrongFair r Signal.lk) (n : Nat)
+    (hset : ∀ m, n ≤ m → (r.st m).flag = true) (u : Tid) (dl : Option Deadline) (hu : (r.st n).pc u = .wBlocked dl) :
+    ∃ m, n ≤ m ∧ (r.st m).pc u = .idle ∧
+      ((r.st m).ret u = some (.bool true) ∨ (dl ≠ none ∧ (r.st m).ret u = some (.bool false))) :=
+  Signal.waiter_eventually_returns r h0 hwf hsf n hset u dl hu
+
+/-- A set() issued after a waiter has taken the monitor eventually releases a waiter (liveness): `u` is blocked in
+    the untimed wait(), a set() has stored the flag since `u` joined the wait set and the flag is still set.  On every
+    run that is weakly fair, whose monitor mutex is starvation-free and on which the clients do not keep the monitor
+    locked for ever, some wait returns true afterwards. -/
+theorem monitor_set_eventually_releases_a_waiter {now spur : Nat} (r : Run Monitor.St Monitor.Op Monitor.step)
+    (h0 : Monitor.Reach now spur (r.st 0)) (hwf : WeakFair r Monitor.prog) (hsf : StrongFair r Monitor.lk)
+    (hfree : ∀ k, ∃ j, k ≤ j ∧ (r.st j).m = none) (n : Nat) (hf : (r.st n).flag = true) (u : Tid)
+    (hu : (r.st n).pc u = .wBlocked none true) : ∃ m, n ≤ m ∧ (r.st n).succ < (r.st m).succ :=
+  Monitor.set_eventually_releases_a_waiter r h0 hwf hsf hfree n hf u hu
 
 /-! ## the driver of the correspondence run -/
 
